@@ -438,7 +438,7 @@ class LineOnlyReceiver(protocol.Protocol):
                 return self.lineLengthExceeded(line)
             else:
                 self.lineReceived(line)
-        if len(self._buffer) > self.MAX_LENGTH:
+        if len(self._buffer) >= self.MAX_LENGTH + len(self.delimiter):
             return self.lineLengthExceeded(self._buffer)
 
     def lineReceived(self, line):
